@@ -124,7 +124,10 @@ def run(chk):
     with V.build_lock():
         ok, fails = CS.build_conv(chk)
         if ok:
-            proved, f2 = V.prove(chk, "C15", [])
+            kn = os.path.join(V.GEN, "Known.v")
+            pk = V.run_py("x_known.py", [kn])
+            chk.obligation("translate:x_known", pk.returncode == 0, (pk.stdout + pk.stderr)[-200:])
+            proved, f2 = V.prove(chk, "C15", [kn], extra_props=("Cover",))
             fails += f2
         pkg = CS.load_pkg(mmv)
         base = CP.sys_cases(mmv, pkg) + CP.site_stream(mmv, pkg, shapes=((0, 0), (1, 0), (2, 0), (1, 3))) + CP.rand_cases(mmv, pkg, rng, 1, 1)
